@@ -18,6 +18,7 @@ from __future__ import annotations
 import dataclasses
 import itertools
 import json
+import sys
 import math
 import os
 import pathlib
@@ -576,6 +577,10 @@ INPUT_MODES = {
     "velgrad_paths": {"velocity_gradient": ["simple_shear_2d", "Y", "X", 5e-6], "locations_initial": "start.scsv", "paths": ["p1.npz"], "timestep": 1e9,
                       "locations_final": "final.scsv"},
     "none_with_locations": {"timestep": 1.0, "locations_initial": "start.scsv"},
+    # every documented flow constructor, with and without its optional argument (cell_2d's edge_length)
+    "velgrad_cell": {"velocity_gradient": ["cell_2d", "X", "Z", 1.0], "locations_initial": "start.scsv", "timestep": 0.1},
+    "velgrad_cell_edge_length": {"velocity_gradient": ["cell_2d", "X", "Z", 1.0, 4.0], "locations_initial": "start.scsv", "timestep": 0.1},
+    "velgrad_corner": {"velocity_gradient": ["corner_2d", "X", "Z", 2.0], "locations_initial": "start.scsv", "timestep": 0.1},
 }
 
 
@@ -844,6 +849,67 @@ def run_config(ctx, res):
     shutil.rmtree(root, ignore_errors=True)
 
 
+LOCALE_SCRIPT = r"""
+import json, os, pathlib, sys, tempfile
+os.environ.setdefault("NUMBA_DISABLE_JIT", "1")
+import logging
+logging.getLogger("pydrex").setLevel(logging.CRITICAL)
+from pydrex import io as pio
+def norm(x):
+    if isinstance(x, dict): return {str(k): norm(v) for k, v in sorted(x.items(), key=lambda kv: str(kv[0]))}
+    if isinstance(x, (list, tuple)): return [norm(v) for v in x]
+    if callable(x): return "<callable>"
+    if isinstance(x, (int, float, str, bool)) or x is None: return x
+    return type(x).__name__ + ":" + str(x)
+out = {}
+spec_dir = pathlib.Path(pio.__file__).parent / "data" / "specs"
+tmp = pathlib.Path(tempfile.mkdtemp())
+NL = chr(10)
+(tmp / "unicode.toml").write_bytes(NL.join(["# strain ε = γ/2, stiffness Cᵢⱼ, naïve café 日本", 'name = "run-é"', "[input]", "timestep = 1.0", "[output]", 'directory = "out"', ""]).encode("utf-8"))
+(tmp / "ascii.toml").write_bytes(NL.join(['name = "run"', "[input]", "timestep = 1.0", ""]).encode("utf-8"))
+for path in sorted(spec_dir.glob("*.toml")) + [tmp / "unicode.toml", tmp / "ascii.toml"]:
+    cwd = os.getcwd()
+    try:
+        os.chdir(path.parent)
+        r = pio.parse_config(path)
+        r.pop("name", None) if "name" not in path.read_text(encoding="utf-8") else None
+        out[path.name] = ["ok", json.dumps(norm(r), sort_keys=True, default=str).replace(str(tmp), "<tmp>")]
+    except Exception as e:
+        out[path.name] = ["err", type(e).__name__]
+    finally:
+        os.chdir(cwd)
+print("RESULT " + json.dumps(out))
+"""
+
+
+def _locale_twin(ctx, res):
+    """configuration files are UTF-8 (TOML), whatever the locale of the process: the shipped example configurations (their comments
+    contain non-ASCII characters) and two generated ones parse to the same result under the C locale without UTF-8 mode"""
+    import subprocess
+    import sys
+
+    outs = {}
+    for tag, extra in (("utf8", {}), ("C_locale", {"LC_ALL": "C", "LANG": "C", "PYTHONUTF8": "0", "PYTHONCOERCECLOCALE": "0"})):
+        env = dict(os.environ, **extra)
+        script = SCRATCH_ROOT / "locale_twin.py"        # (source files are UTF-8 whatever the locale; a -c argument is not)
+        script.write_text(LOCALE_SCRIPT, encoding="utf-8")
+        p = subprocess.run([sys.executable, "-X", "utf8=0", str(script)] if tag == "C_locale" else [sys.executable, str(script)],
+                           capture_output=True, text=True, env=env, timeout=600)
+        line = [l for l in p.stdout.splitlines() if l.startswith("RESULT ")]
+        if p.returncode != 0 or not line:
+            res.mismatch("C19 locale twin", {"environment": tag}, "", "", note="the child failed: " + p.stderr[-400:])
+            return
+        outs[tag] = json.loads(line[0][7:])
+    for name, a in outs["utf8"].items():
+        b = outs["C_locale"].get(name)
+        res.evaluations += 1
+        res.count("locale_twin:" + a[0])
+        if a != b:
+            res.violation("config:depends_on_locale", f"parse_config({name}) gives {a[0]} in a UTF-8 process and {b[0] if b else None} "
+                          f"({b[1] if b and b[0] == 'err' else 'another result'}) under LC_ALL=C without UTF-8 mode; TOML files are UTF-8 by definition",
+                          {"file": name})
+
+
 def run(ctx, res):
     res.rule = ("default record with random keyword modifications; every preset of pydrex.mock x every name it assigns; generated class "
                 "hierarchies (depth 1..3, random decorator/annotation/plain assignments, type-mismatching defaults, random kwargs) against "
@@ -857,6 +923,8 @@ def run(ctx, res):
     # representation- and history-robustness of the public functions (harness/apirobust.py)
     from .. import apirobust_cases as _AC
     _AC.c19(res, np.random.default_rng(ctx["seed"] + 4242), ctx)
+    if not sys.flags.optimize:      # (once: the python -O child does not repeat it)
+        _locale_twin(ctx, res)
 
 
 def replay(data):
